@@ -6,8 +6,9 @@ Property theorems only (helper lemmas: `Proofs/ParseTotal.lean`; model: `Model/P
 `parseEthernet cfg d bs` is `ethernet(raw=bs)` (= `PacketIn.parsed`, openflow/__init__.py:182-185) for the parsers
 Ethernet → 802.1Q (nested) / LLC-SNAP → ARP / IPv4 (+options) → ICMP (echo, unreachable, time-exceeded with the quoted
 datagram, nested) / TCP (+option parser) / UDP, and LLDP with all its TLV classes, with every Python operation that can raise kept
-partial.  `cfg = Cfg.repaired` is /repo HEAD plus the proposed repairs D14, C15-1 … C15-4; `Cfg.head` is HEAD
-(repairs C15-5 dhcp, C15-6 eap, C15-7 icmpv6 concern parsers outside the model).  `d` is the
+partial.  `cfg = Cfg.repaired` is /repo HEAD, which contains the repairs D14, C15-1 … C15-4 (commits d7ff84a, c4c3f4b,
+a91c2bd, 60ec5b5, 1392d59); `Cfg.head` is the tree before them (repairs C15-5 dhcp, C15-6 eap, C15-7 icmpv6 concern parsers
+outside the model).  `d` is the
 number of nested constructor activations the interpreter still allows (RecursionError beyond).  Layers handed to one of the
 un-modelled parsers (ipv6, icmpv6, dhcp, dns, rip, vxlan, igmp, gre, mpls, eapol/eap, the MPTCP option) end the chain as
 `Frame.foreign`: the theorems say nothing about what those classes do — hence `…_partial`; for them only the differential
@@ -65,7 +66,8 @@ theorem refines_c14 (cfg : Cfg) (hc : cfg.tcpOptBound = true) (d : Nat) (bs : By
     (h : parseEthernet cfg d bs = .ok p) : p.toPkt = Packet.parse d .eth bs :=
   (parseD_ref cfg hc d).same .eth .eth bs p rfl h
 
-/-! ## defects of the code as it stands at HEAD (each replayed on the implementation by harness/c15.py) -/
+/-! ## defects of the code before the repairs (`Cfg.head`); the witnesses are corpus cases of harness/c15.py, which now checks
+that the repaired code handles them -/
 
 /-- Ethernet/LLDP: chassis-id, port-id, then a TTL TLV header announcing 2 bytes with nothing behind it -/
 def w_d14 : Bytes := [0x01, 0x80, 0xc2, 0x00, 0x00, 0x0e, 0x02, 0xa1, 0xb2, 0xc3, 0xd4, 0xe5, 0x88, 0xcc, 0x02, 0x07, 0x04, 0x02, 0xa1, 0xb2, 0xc3, 0xd4, 0xe5, 0x04, 0x02, 0x02, 0x37, 0x06, 0x02]
